@@ -14,8 +14,12 @@ import (
 	"github.com/go-i2p/common/base64"
 	"github.com/go-i2p/common/certificate"
 	"github.com/go-i2p/common/data"
+	"github.com/go-i2p/common/destination"
 	"github.com/go-i2p/common/key_certificate"
+	"github.com/go-i2p/common/keys_and_cert"
 	"github.com/go-i2p/common/offline_signature"
+	"github.com/go-i2p/common/router_identity"
+	"github.com/go-i2p/common/router_info"
 	"github.com/go-i2p/common/session_key"
 	"github.com/go-i2p/common/session_tag"
 	"github.com/go-i2p/common/signature"
@@ -27,7 +31,7 @@ import (
 	"verif/internal/model"
 )
 
-const rule = "(every 2-byte window of the fixed corpus of well-formed encodings set to 0xfffb..0xffff, 0x8000, 0x7fff, 0x0100, 0x00ff every byte to 0x00 / 0x80 / 0xff, and every truncation point, on every run) cases: (entry, type argument, bytes) over the 43 parser entry points plus 22 further byte-/string-consuming functions (key construction, decoders, constructors, mapping values); bytes are model encodings, encodings with every length/count field pushed to extremes, 1-2 structure-aware mutations, or arbitrary bytes up to 140 KiB; all 65,536 type codes plus -1, 65,536, MinInt, MaxInt swept through every type-taking function with four data shapes. On every accepted value all exported methods are called by reflection (argument-free always; with generated arguments where every parameter kind has a generator; returned library values are swept two levels deep). Oracle: every call returns (panics are caught per call and reported with the call path) within 20 s (re-run once with a 60 s limit before a hang is reported). Non-trivial: the parser accepted and >= 5 methods were invoked; distinct by (entry, type, input)."
+const rule = "(values returned without error are also handed to the exported package-level functions that take them: certificate type helpers, KeyCertificateFromCertificate, NewDestination, NewRouterIdentityFromKeysAndCert, OwnedRouterInfo, ValidatePtr, ValuesToMapping) (every 2-byte window of the fixed corpus of well-formed encodings set to 0xfffb..0xffff, 0x8000, 0x7fff, 0x0100, 0x00ff every byte to 0x00 / 0x80 / 0xff, and every truncation point, on every run) cases: (entry, type argument, bytes) over the 43 parser entry points plus 22 further byte-/string-consuming functions (key construction, decoders, constructors, mapping values); bytes are model encodings, encodings with every length/count field pushed to extremes, 1-2 structure-aware mutations, or arbitrary bytes up to 140 KiB; all 65,536 type codes plus -1, 65,536, MinInt, MaxInt swept through every type-taking function with four data shapes. On every accepted value all exported methods are called by reflection (argument-free always; with generated arguments where every parameter kind has a generator; returned library values are swept two levels deep). Oracle: every call returns (panics are caught per call and reported with the call path) within 20 s (re-run once with a 60 s limit before a hang is reported). Non-trivial: the parser accepted and >= 5 methods were invoked; distinct by (entry, type, input)."
 
 func TestMain(m *testing.M) { ev.Main(m, "C04", rule) }
 
@@ -241,6 +245,50 @@ func timed(what string, f func() error) error {
 	return fmt.Errorf("%s", msg)
 }
 
+// consumers hands a value a parser returned without error to the exported package-level
+// functions that take such a value (they are no methods, so the sweep does not reach them).
+func consumers(entry string, v any) (err error) {
+	name := ""
+	defer func() {
+		if x := recover(); x != nil {
+			err = fmt.Errorf("%s accepted the input; then %s on the returned value: panic: %v", entry, name, x)
+		}
+	}()
+	try := func(n string, f func()) { name = n; f() }
+	switch x := v.(type) {
+	case *certificate.Certificate:
+		if x != nil {
+			try("certificate.GetSignatureTypeFromCertificate", func() { certificate.GetSignatureTypeFromCertificate(*x) })
+			try("certificate.GetCryptoTypeFromCertificate", func() { certificate.GetCryptoTypeFromCertificate(*x) })
+			try("key_certificate.KeyCertificateFromCertificate", func() { key_certificate.KeyCertificateFromCertificate(x) })
+		}
+	case certificate.Certificate:
+		try("certificate.GetSignatureTypeFromCertificate", func() { certificate.GetSignatureTypeFromCertificate(x) })
+		try("certificate.GetCryptoTypeFromCertificate", func() { certificate.GetCryptoTypeFromCertificate(x) })
+		try("key_certificate.KeyCertificateFromCertificate", func() { key_certificate.KeyCertificateFromCertificate(&x) })
+	case *key_certificate.KeyCertificate:
+		if x != nil {
+			try("certificate helpers on KeyCertificate.Certificate", func() {
+				certificate.GetSignatureTypeFromCertificate(x.Certificate)
+				certificate.GetCryptoTypeFromCertificate(x.Certificate)
+			})
+			try("router_info.OwnedRouterInfo", func() { router_info.OwnedRouterInfo(*x) })
+		}
+	case *keys_and_cert.KeysAndCert:
+		if x != nil {
+			try("destination.NewDestination", func() { destination.NewDestination(x) })
+			try("router_identity.NewRouterIdentityFromKeysAndCert", func() { router_identity.NewRouterIdentityFromKeysAndCert(x) })
+		}
+	case *signature.Signature:
+		try("signature.ValidatePtr", func() { signature.ValidatePtr(x) })
+	case *data.Mapping:
+		if x != nil {
+			try("data.ValuesToMapping(Values())", func() { data.ValuesToMapping(x.Values()) })
+		}
+	}
+	return nil
+}
+
 // current is the case being checked (for the hang report above).
 var current Case
 
@@ -283,6 +331,10 @@ func check(c Case, r *ev.Rec) error {
 	}
 	if len(sw.Panics) > 0 {
 		return fmt.Errorf("%s accepted the input; then %s", e.Name, strings.Join(sw.Panics, "; "))
+	}
+	// exported functions that take the returned value as an argument
+	if err := timed(e.Name+" consumers", func() error { return consumers(e.Name, res.Value) }); err != nil {
+		return err
 	}
 	if sw.Calls >= 5 {
 		r.NonTrivial(c, []byte(e.Name), []byte{byte(c.Typ), byte(c.Typ >> 8)}, in)
